@@ -1,6 +1,7 @@
 //! Implementations of JavaScript operators for JSON Values
 
 use serde_json::{Number, Value};
+use std::cmp::Ordering;
 use std::f64;
 use std::str::FromStr;
 
@@ -477,12 +478,33 @@ pub fn abstract_ne(first: &Value, second: &Value) -> bool {
 
 /// Provide abstract <= comparisons
 pub fn abstract_lte(first: &Value, second: &Value) -> bool {
-    abstract_lt(first, second) || abstract_eq(first, second)
+    match abstract_cmp(first, second) {
+        Some(Ordering::Less) | Some(Ordering::Equal) => true,
+        _ => false,
+    }
+}
+
+/// Order the operands the way the relational operators convert them: as
+/// strings when both are string-like, as numbers otherwise. `None` when
+/// a conversion is not a number.
+fn abstract_cmp(first: &Value, second: &Value) -> Option<Ordering> {
+    match (
+        to_primitive(first, PrimitiveHint::Number),
+        to_primitive(second, PrimitiveHint::Number),
+    ) {
+        (Primitive::String(f), Primitive::String(s)) => Some(f.cmp(&s)),
+        (Primitive::Number(f), Primitive::Number(s)) => f.partial_cmp(&s),
+        (Primitive::String(f), Primitive::Number(s)) => str_to_number(f)?.partial_cmp(&s),
+        (Primitive::Number(f), Primitive::String(s)) => f.partial_cmp(&str_to_number(s)?),
+    }
 }
 
 /// Provide abstract >= comparisons
 pub fn abstract_gte(first: &Value, second: &Value) -> bool {
-    abstract_gt(first, second) || abstract_eq(first, second)
+    match abstract_cmp(first, second) {
+        Some(Ordering::Greater) | Some(Ordering::Equal) => true,
+        _ => false,
+    }
 }
 
 /// Get the max of an array of values, performing abstract type conversion
